@@ -187,15 +187,12 @@ func (s *Settings) merge(other *Settings) {
 		sField := sStruct.FieldByName(field.Name)
 		otherField := otherStruct.FieldByName(field.Name)
 
-		if field.Type.Kind() == reflect.Pointer {
-			otherFieldValue := getUnexportedField(otherField)
-			if !isNilish(otherFieldValue) {
-				setUnexportedField(sField, otherFieldValue)
-			}
-		} else {
-			otherFieldValue := getUnexportedField(otherField)
+		// A nil pointer or nil slice means "not set in this layer" and must not
+		// overwrite a value provided by an earlier layer (e.g. a slice-valued
+		// command line flag followed by an unset environment variable).
+		otherFieldValue := getUnexportedField(otherField)
+		if !isNilish(otherFieldValue) {
 			setUnexportedField(sField, otherFieldValue)
-
 		}
 	}
 }
